@@ -1,4 +1,454 @@
 import Model.GErrClone
+/-!
+# C15 — gerror: factories immutable; message/tag/source/stack compose lawfully
+-/
 namespace GErrClone
-theorem placeholder_c15 : run ⟨[], [], [], [], []⟩ [] = ⟨[], [], [], [], []⟩ := rfl
+
+/-! ### `strings.TrimSpace` -/
+
+theorem trimRight_eq_nil_iff (s : Str) : trimRight s = [] ↔ s.all isSpace = true := by
+  induction s with
+  | nil => simp [trimRight]
+  | cons c cs ih =>
+    unfold trimRight
+    split
+    · rename_i h
+      have := ih.mp h
+      by_cases hc : isSpace c <;> simp [hc, this]
+    · rename_i h
+      have : ¬ (cs.all isSpace = true) := fun hh => h (ih.mpr hh)
+      simp
+      intro _
+      simpa using this
+
+/-- what `trimRight` cuts off is white space, what it keeps does not end in white space -/
+theorem trimRight_spec (s : Str) :
+    ∃ r, s = trimRight s ++ r ∧ r.all isSpace = true ∧
+      ∀ c, (trimRight s).getLast? = some c → isSpace c = false := by
+  induction s with
+  | nil => exact ⟨[], by simp [trimRight]⟩
+  | cons c cs ih =>
+    obtain ⟨r, hr, hsp, hl⟩ := ih
+    unfold trimRight
+    split
+    · rename_i h
+      rw [h] at hr hl
+      by_cases hc : isSpace c
+      · refine ⟨c :: cs, by simp [hc], ?_, by simp [hc]⟩
+        simp at hr; subst hr; simp [hc, hsp]
+      · refine ⟨r, by simp [hc]; simpa using hr, hsp, ?_⟩
+        simp [hc]
+    · rename_i h
+      refine ⟨r, by simp; exact hr, hsp, ?_⟩
+      intro d hd
+      rw [List.getLast?_cons_of_ne_nil h] at hd  
+      exact hl d hd
+
+
+theorem dropWhile_all_iff (s : Str) : (s.dropWhile isSpace).all isSpace = true ↔ s.all isSpace = true := by
+  induction s with
+  | nil => simp
+  | cons c cs ih =>
+    by_cases hc : isSpace c
+    · simp [List.dropWhile, hc] at ih ⊢; exact ih
+    · simp [List.dropWhile, hc]
+
+/-- an extension is dropped exactly when it is blank (only white space, or empty) -/
+theorem trimSpace_eq_nil_iff (s : Str) : trimSpace s = [] ↔ s.all isSpace = true := by
+  unfold trimSpace; rw [trimRight_eq_nil_iff, dropWhile_all_iff]
+
+/-- `TrimSpace s` is `s` without a white-space prefix and a white-space suffix, and neither starts
+nor ends with white space: this determines it uniquely. -/
+theorem trimSpace_spec (s : Str) :
+    ∃ l r, s = l ++ trimSpace s ++ r ∧ l.all isSpace = true ∧ r.all isSpace = true ∧
+      (∀ c, (trimSpace s).head? = some c → isSpace c = false) ∧
+      (∀ c, (trimSpace s).getLast? = some c → isSpace c = false) := by
+  obtain ⟨r, hr, hsp, hl⟩ := trimRight_spec (s.dropWhile isSpace)
+  refine ⟨s.takeWhile isSpace, r, ?_, ?_, hsp, ?_, hl⟩
+  · unfold trimSpace
+    rw [List.append_assoc, ← hr, List.takeWhile_append_dropWhile]
+  · simp
+  · intro c hc
+    unfold trimSpace at hc
+    have hne : trimRight (s.dropWhile isSpace) ≠ [] := by intro h; simp [h] at hc
+    have h1 : (s.dropWhile isSpace).head? = some c := by
+      rw [hr, List.head?_append, hc]; rfl
+    have h2 := List.head?_dropWhile_not isSpace s
+    rw [h1] at h2
+    exact h2
+
+
+/-! ### the blocks of `CloneBase`, field by field -/
+
+@[simp] theorem withSource_name (e : E) (s : Str) : (withSource e s).name = e.name := by unfold withSource; split <;> rfl
+@[simp] theorem withSource_msg (e : E) (s : Str) : (withSource e s).msg = e.msg := by unfold withSource; split <;> rfl
+@[simp] theorem withSource_dtag (e : E) (s : Str) : (withSource e s).dtag = e.dtag := by unfold withSource; split <;> rfl
+@[simp] theorem withSource_stack (e : E) (s : Str) : (withSource e s).stack = e.stack := by unfold withSource; split <;> rfl
+theorem withSource_src (e : E) (s : Str) :
+    (withSource e s).src = if e.src ≠ [] then e.src else s := by
+  unfold withSource
+  by_cases h1 : e.src = [] <;> by_cases h2 : s = [] <;> simp [h1, h2]
+
+@[simp] theorem withDTag_name (e : E) (s : Str) : (withDTag e s).name = e.name := by unfold withDTag; (repeat' split) <;> rfl
+@[simp] theorem withDTag_msg (e : E) (s : Str) : (withDTag e s).msg = e.msg := by unfold withDTag; (repeat' split) <;> rfl
+@[simp] theorem withDTag_src (e : E) (s : Str) : (withDTag e s).src = e.src := by unfold withDTag; (repeat' split) <;> rfl
+@[simp] theorem withDTag_stack (e : E) (s : Str) : (withDTag e s).stack = e.stack := by unfold withDTag; (repeat' split) <;> rfl
+theorem withDTag_dtag (e : E) (s : Str) :
+    (withDTag e s).dtag = if s = [] then e.dtag else if e.dtag = [] then s else e.dtag ++ ['-'] ++ s := by
+  unfold withDTag
+  by_cases h1 : s = [] <;> by_cases h2 : e.dtag = [] <;> simp [h1, h2]
+
+@[simp] theorem withMsg_name (e : E) (s : Str) : (withMsg e s).name = e.name := by unfold withMsg; simp only []; (repeat' split) <;> rfl
+@[simp] theorem withMsg_dtag (e : E) (s : Str) : (withMsg e s).dtag = e.dtag := by unfold withMsg; simp only []; (repeat' split) <;> rfl
+@[simp] theorem withMsg_src (e : E) (s : Str) : (withMsg e s).src = e.src := by unfold withMsg; simp only []; (repeat' split) <;> rfl
+@[simp] theorem withMsg_stack (e : E) (s : Str) : (withMsg e s).stack = e.stack := by unfold withMsg; simp only []; (repeat' split) <;> rfl
+theorem withMsg_msg (e : E) (s : Str) :
+    (withMsg e s).msg =
+      if trimSpace s = [] then e.msg else if e.msg = [] then trimSpace s else e.msg ++ [' '] ++ trimSpace s := by
+  unfold withMsg
+  by_cases h1 : trimSpace s = [] <;> by_cases h2 : e.msg = [] <;> simp [h1, h2]
+
+@[simp] theorem withStack_name (e : E) (st : StackType) (fr : Frames) : (withStack e st fr).name = e.name := by
+  unfold withStack; simp only []; (repeat' split) <;> rfl
+@[simp] theorem withStack_msg (e : E) (st : StackType) (fr : Frames) : (withStack e st fr).msg = e.msg := by
+  unfold withStack; simp only []; (repeat' split) <;> rfl
+@[simp] theorem withStack_dtag (e : E) (st : StackType) (fr : Frames) : (withStack e st fr).dtag = e.dtag := by
+  unfold withStack; simp only []; (repeat' split) <;> rfl
+
+
+theorem withStack_stack (e : E) (st : StackType) (fr : Frames) :
+    (withStack e st fr).stack =
+      if e.stack ≠ [] then e.stack
+      else if st = .noStack ∨ st = .sourceStack then [] else makeStack st fr := by
+  unfold withStack
+  by_cases h1 : e.stack = [] <;> by_cases h2 : e.src = [] <;> cases st <;>
+    simp [h1, h2, List.length_pos_iff]
+
+theorem withStack_src (e : E) (st : StackType) (fr : Frames) :
+    (withStack e st fr).src =
+      if e.src ≠ [] then e.src
+      else if e.stack ≠ [] ∨ st = .noStack then []
+      else metric (nearestExternal (makeStack st fr)) := by
+  unfold withStack
+  by_cases h1 : e.stack = [] <;> by_cases h2 : e.src = [] <;> cases st <;>
+    simp [h1, h2, List.length_pos_iff]
+
+
+/-! ### one `CloneBase` call -/
+
+@[simp] theorem cloneBase_name (b : E) (st : StackType) (d s m : Str) (fr : Frames) :
+    (cloneBase b st d s m fr).name = b.name := by simp [cloneBase]
+
+theorem cloneBase_msg (b : E) (st : StackType) (d s m : Str) (fr : Frames) :
+    (cloneBase b st d s m fr).msg =
+      if trimSpace m = [] then b.msg else if b.msg = [] then trimSpace m else b.msg ++ [' '] ++ trimSpace m := by
+  simp [cloneBase, withMsg_msg]
+
+theorem cloneBase_dtag (b : E) (st : StackType) (d s m : Str) (fr : Frames) :
+    (cloneBase b st d s m fr).dtag =
+      if d = [] then b.dtag else if b.dtag = [] then d else b.dtag ++ ['-'] ++ d := by
+  simp [cloneBase, withDTag_dtag]
+
+theorem cloneBase_stack (b : E) (st : StackType) (d s m : Str) (fr : Frames) :
+    (cloneBase b st d s m fr).stack =
+      if b.stack ≠ [] then b.stack
+      else if st = .noStack ∨ st = .sourceStack then [] else makeStack st fr := by
+  simp [cloneBase, withStack_stack]
+
+theorem cloneBase_src (b : E) (st : StackType) (d s m : Str) (fr : Frames) :
+    (cloneBase b st d s m fr).src =
+      if b.src ≠ [] then b.src
+      else if s ≠ [] then s
+      else if b.stack ≠ [] ∨ st = .noStack then []
+      else metric (nearestExternal (makeStack st fr)) := by
+  simp only [cloneBase, withStack_src, withMsg_src, withDTag_src, withSource_src, withMsg_stack,
+    withDTag_stack, withSource_stack]
+  by_cases h1 : b.src = [] <;> by_cases h2 : s = [] <;> simp [h1, h2]
+
+
+/-! ### joining -/
+
+/-- how `CloneBase` extends a field: nothing to add / nothing there yet / separator in between -/
+def combine (sep base x : Str) : Str :=
+  if x = [] then base else if base = [] then x else base ++ sep ++ x
+
+theorem joinWith_merge (sep a b : Str) (rest : List Str) :
+    joinWith sep ((a ++ sep ++ b) :: rest) = joinWith sep (a :: b :: rest) := by
+  cases rest with
+  | nil => simp [joinWith]
+  | cons r rs => simp [joinWith, List.append_assoc]
+
+theorem joinNonEmpty_single (sep a : Str) : joinNonEmpty sep [a] = a := by
+  unfold joinNonEmpty
+  by_cases h : a = [] <;> simp [h, joinWith]
+
+theorem joinNonEmpty_combine (sep base x : Str) (xs : List Str) :
+    joinNonEmpty sep (base :: x :: xs) = joinNonEmpty sep (combine sep base x :: xs) := by
+  unfold joinNonEmpty combine
+  by_cases hx : x = []
+  · subst hx; simp [List.filter]
+  · by_cases hb : base = []
+    · simp [hx, hb]
+    · have : base ++ sep ++ x ≠ [] := by simp [hb]
+      rw [if_neg hx, if_neg hb]
+      rw [List.filter_cons_of_pos (by simpa using hb), List.filter_cons_of_pos (by simpa using hx),
+        List.filter_cons_of_pos (by simp [hb]), joinWith_merge]
+
+theorem run_cons (e : E) (c : Call) (cs : List Call) : run e (c :: cs) = run (step e c) cs := rfl
+theorem run_nil (e : E) : run e [] = e := rfl
+theorem run_append (e : E) (cs ds : List Call) : run e (cs ++ ds) = run (run e cs) ds := by
+  simp [run, List.foldl_append]
+
+theorem step_name (e : E) (c : Call) : (step e c).name = e.name := by simp [step, execRow]
+
+theorem step_msg (e : E) (c : Call) :
+    (step e c).msg = combine [' '] e.msg (trimSpace c.msgArg) := by
+  simp only [step, execRow, cloneBase_msg, combine, Call.msgArg]; rfl
+
+theorem step_dtag (e : E) (c : Call) :
+    (step e c).dtag = combine ['-'] e.dtag c.dtagArg := by
+  simp only [step, execRow, cloneBase_dtag, combine, Call.dtagArg]; rfl
+
+/-! ## The chain laws -/
+
+/-- the name never changes -/
+theorem name_law (e : E) (cs : List Call) : (run e cs).name = e.name := by
+  induction cs generalizing e with
+  | nil => rfl
+  | cons c cs ih => rw [run_cons, ih, step_name]
+
+/-- **Message law.** After any chain, the message is the base message followed by each non-blank
+extension, trimmed, joined by single spaces. -/
+theorem message_law (e : E) (cs : List Call) :
+    (run e cs).msg = specMessage e.msg (cs.map Call.msgArg) := by
+  induction cs generalizing e with
+  | nil => simp [run_nil, specMessage, joinNonEmpty_single]
+  | cons c cs ih =>
+    rw [run_cons, ih, step_msg]
+    simp only [specMessage, List.map_cons]
+    rw [joinNonEmpty_combine]
+
+/-- **Detail-tag law.** Detail tags are joined by `-` (empty ones contribute nothing). -/
+theorem dtag_law (e : E) (cs : List Call) :
+    (run e cs).dtag = specDTag e.dtag (cs.map Call.dtagArg) := by
+  induction cs generalizing e with
+  | nil => simp [run_nil, specDTag, joinNonEmpty_single]
+  | cons c cs ih =>
+    rw [run_cons, ih, step_dtag]
+    simp only [specDTag, List.map_cons]
+    rw [joinNonEmpty_combine]
+
+
+/-! ### what the wiring table says about stack types -/
+
+theorem wiring_noStack_iff (m : Method) : (wiring m).stack = .noStack ↔ m = .base := by
+  cases m <;> decide
+
+theorem wiring_defaultStack_iff (m : Method) : (wiring m).stack = .defaultStack ↔ m.takesStack = true := by
+  cases m <;> decide
+
+theorem wiring_sourceStack_iff (m : Method) :
+    (wiring m).stack = .sourceStack ↔ (m ≠ .base ∧ m.takesStack = false) := by
+  cases m <;> decide
+
+theorem makeStack_default_ne_nil (fr : Frames) : makeStack .defaultStack fr ≠ [] := by
+  simp [makeStack, Frames.toList, StackType.depth]
+
+theorem step_stack (e : E) (c : Call) :
+    (step e c).stack =
+      if e.stack ≠ [] then e.stack
+      else if c.m.takesStack then makeStack .defaultStack c.frames else [] := by
+  simp only [step, execRow, cloneBase_stack]
+  by_cases h : e.stack = []
+  · simp only [h, ne_eq, not_true_eq_false, if_false]
+    cases hm : c.m <;> simp [wiring, Method.isConvert, Method.takesStack, Method.takesSrc, Method.takesDTag, Method.takesMsg]
+  · simp [h]
+
+theorem step_hasStack (e : E) (c : Call) : (step e c).hasStack = (e.hasStack || c.m.takesStack) := by
+  unfold E.hasStack
+  rw [step_stack]
+  by_cases h : e.stack = []
+  · by_cases ht : c.m.takesStack = true
+    · have := makeStack_default_ne_nil c.frames
+      simp [h, ht, this]
+    · simp [h, ht]
+  · simp [h]
+
+/-- **Stack law.** A stack is present after a chain exactly when the start had one or a
+stack-taking method (`Stack`, `…S`) was used somewhere in the chain. -/
+theorem stack_law (e : E) (cs : List Call) :
+    (run e cs).hasStack = (e.hasStack || specHasStack cs) := by
+  induction cs generalizing e with
+  | nil => simp [run_nil, specHasStack]
+  | cons c cs ih =>
+    rw [run_cons, ih, step_hasStack]
+    simp [specHasStack, Bool.or_assoc]
+
+/-- from a factory (which has no stack): present iff a stack-taking method was used -/
+theorem stack_iff_stack_method (f : E) (hf : f.stack = []) (cs : List Call) :
+    (run f cs).stack ≠ [] ↔ ∃ c ∈ cs, c.m.takesStack = true := by
+  have h := stack_law f cs
+  simp only [E.hasStack, hf, specHasStack, List.isEmpty_nil, Bool.not_true, Bool.false_or] at h
+  rw [← List.isEmpty_eq_false_iff, ← Bool.not_eq_true', h, List.any_eq_true]
+
+/-- once captured, the stack is carried along unchanged -/
+theorem stack_persists (e : E) (he : e.stack ≠ []) (cs : List Call) : (run e cs).stack = e.stack := by
+  induction cs generalizing e with
+  | nil => rfl
+  | cons c cs ih =>
+    have h1 : (step e c).stack = e.stack := by rw [step_stack]; simp [he]
+    rw [run_cons, ih _ (by rw [h1]; exact he), h1]
+
+
+/-! ### source -/
+
+/-- a derived source is never empty (it always contains the `:` after the package name) -/
+theorem metric_ne_nil (n : Str) : metric n ≠ [] := by
+  simp [metric]
+
+/-- The caller is "outside": its frame name does not start with what `getCurrentPackage` computes.
+(That string is `…/gerror.Stack`, so this only excludes functions of package gerror whose name
+starts with `Stack`.) -/
+def CallerOutside (c : Call) : Prop := currentPackage.isPrefixOf c.frames.top = false
+
+theorem nearestExternal_makeStack (st : StackType) (fr : Frames) (hst : st ≠ .noStack)
+    (ho : currentPackage.isPrefixOf fr.top = false) :
+    nearestExternal (makeStack st fr) = fr.top := by
+  unfold nearestExternal makeStack Frames.toList
+  cases st <;> simp [StackType.depth, List.find?, ho] at hst ⊢
+
+/-- no stack without a source: true of every factory (no stack) and kept by every derivation -/
+def Inv (e : E) : Prop := e.stack ≠ [] → e.src ≠ []
+
+theorem step_src (e : E) (c : Call) (hi : Inv e) (ho : CallerOutside c) :
+    (step e c).src =
+      if e.src ≠ [] then e.src
+      else if c.srcArg ≠ [] then c.srcArg
+      else if c.m = .base then []
+      else metric c.frames.top := by
+  simp only [step, execRow, cloneBase_src, Call.srcArg]
+  by_cases h1 : e.src = []
+  · have h2 : e.stack = [] := by
+      apply Classical.byContradiction; intro h; exact hi h h1
+    by_cases h3 : evalArg (wiring c.m).src c = []
+    · by_cases h4 : c.m = .base
+      · simp [h1, h2, h3, h4, wiring_noStack_iff]
+      · have h5 : (wiring c.m).stack ≠ .noStack := fun h => h4 ((wiring_noStack_iff _).mp h)
+        simp [h1, h2, h3, h4, h5, nearestExternal_makeStack _ _ h5 ho]
+    · simp [h1, h3]
+  · simp [h1]
+
+theorem step_inv (e : E) (c : Call) (hi : Inv e) (ho : CallerOutside c) : Inv (step e c) := by
+  intro hs
+  rw [step_src e c hi ho]
+  by_cases h1 : e.src = []
+  · have h2 : e.stack = [] := by
+      apply Classical.byContradiction; intro h; exact hi h h1
+    by_cases h3 : c.srcArg = []
+    · by_cases h4 : c.m = .base
+      · rw [step_stack] at hs
+        simp [h2, h4, Method.takesStack] at hs
+      · simp [h1, h3, h4, metric_ne_nil]
+    · simp [h1, h3]
+  · simp [h1]
+
+theorem specSource_of_ne_nil (b : Str) (hb : b ≠ []) (cs : List Call) : specSource b cs = b := by
+  cases cs <;> simp [specSource, hb]
+
+/-- **Source law.** From any error that satisfies `Inv` (in particular every factory), along any
+chain whose callers are outside gerror: the first non-empty source — preset in the factory, given
+as an argument, or derived from the caller by the first method other than `Base` — wins and is
+never overwritten. -/
+theorem source_law (e : E) (hi : Inv e) (cs : List Call) (ho : ∀ c ∈ cs, CallerOutside c) :
+    (run e cs).src = specSource e.src cs := by
+  induction cs generalizing e with
+  | nil => rfl
+  | cons c cs ih =>
+    have hoc := ho c (by simp)
+    rw [run_cons, ih _ (step_inv e c hi hoc) (fun d hd => ho d (by simp [hd])), step_src e c hi hoc]
+    by_cases h1 : e.src = []
+    · by_cases h3 : c.srcArg = []
+      · by_cases h4 : c.m = .base
+        · simp [specSource, h1, h3, h4]
+        · simp [specSource, h1, h3, h4, specSource_of_ne_nil _ (metric_ne_nil _)]
+      · simp [specSource, h1, h3, specSource_of_ne_nil _ h3]
+    · simp [specSource, h1, specSource_of_ne_nil _ h1]
+
+/-- a factory (no stack) satisfies the invariant -/
+theorem inv_of_factory (f : E) (hf : f.stack = []) : Inv f := fun h => absurd hf h
+
+/-- **A non-empty source is never overwritten** — by any chain, wherever the callers are. -/
+theorem source_never_overwritten (e : E) (he : e.src ≠ []) (cs : List Call) : (run e cs).src = e.src := by
+  induction cs generalizing e with
+  | nil => rfl
+  | cons c cs ih =>
+    have h1 : (step e c).src = e.src := by simp [step, execRow, cloneBase_src, he]
+    rw [run_cons, ih _ (by rw [h1]; exact he), h1]
+
+/-- **A source is derived from the caller whenever none was given, except by `Base`.** -/
+theorem source_derived_unless_base (f : E) (hf : f.stack = []) (hs : f.src = []) (c : Call)
+    (ho : CallerOutside c) (hg : c.srcArg = []) :
+    (step f c).src = (if c.m = .base then [] else metric c.frames.top) ∧
+    (c.m ≠ .base → (step f c).src ≠ []) := by
+  rw [step_src f c (inv_of_factory f hf) ho]
+  by_cases h4 : c.m = .base <;> simp [hs, hg, h4, metric_ne_nil]
+
+/-- **The first non-empty source wins.** -/
+theorem source_first_wins (f : E) (hf : f.stack = []) (hs : f.src = []) (c : Call) (cs : List Call)
+    (ho : ∀ d ∈ c :: cs, CallerOutside d) (hg : c.srcArg ≠ []) :
+    (run f (c :: cs)).src = c.srcArg := by
+  rw [source_law f (inv_of_factory f hf) _ ho]
+  simp [specSource, hs, hg]
+
+
+/-! ## Immutability: derivations only allocate -/
+
+theorem derive_prefix (h : Heap) (d : Deriv) : ∃ l, derive h d = h ++ l := by
+  unfold derive
+  split
+  · exact ⟨_, rfl⟩
+  · exact ⟨[], by simp⟩
+
+theorem runHeap_prefix (h : Heap) (ds : List Deriv) : ∃ l, runHeap h ds = h ++ l := by
+  induction ds generalizing h with
+  | nil => exact ⟨[], by simp [runHeap]⟩
+  | cons d ds ih =>
+    obtain ⟨l1, h1⟩ := derive_prefix h d
+    obtain ⟨l2, h2⟩ := ih (derive h d)
+    refine ⟨l1 ++ l2, ?_⟩
+    show runHeap (derive h d) ds = _
+    rw [h2, h1, List.append_assoc]
+
+/-- **Factories are immutable.** After any number of derivations, by any threads, from any objects
+(factories or earlier results), in any order, every object that existed before — each factory in
+particular — still has the same name, message, source, detail tag and stack. -/
+theorem factory_unchanged (h : Heap) (ds : List Deriv) (a : Nat) (ha : a < h.length) :
+    (runHeap h ds)[a]? = h[a]? := by
+  obtain ⟨l, hl⟩ := runHeap_prefix h ds
+  rw [hl, List.getElem?_append_left ha]
+
+/-- every derivation adds exactly the error the sequential chain semantics predicts -/
+theorem derive_result (h : Heap) (d : Deriv) (e : E) (he : h[d.addr]? = some e) :
+    derive h d = h ++ [step e d.call] := by
+  simp [derive, he]
+
+/-! ## Non-vacuity -/
+
+def exFactory : E := ⟨"ErrA".toList, "base".toList, [], [], []⟩
+def exFrames : Frames := ⟨"x/sites.(*T).Plain.func1".toList, ["main.main".toList]⟩
+def exChain : List Call :=
+  [⟨.msg, [" %d ".toList], " 5 ".toList, exFrames⟩,
+   ⟨.srcDTagS, ["late:src".toList, "t".toList], [], exFrames⟩,
+   ⟨.dTagMsg, ["u".toList, "  ".toList], "  ".toList, exFrames⟩]
+
+instance (c : Call) : Decidable (CallerOutside c) := by unfold CallerOutside; infer_instance
+
+/-- a factory, callers outside gerror, and a chain that exercises message (one extension blank),
+tags, a derived source that a later explicit source does not overwrite, and a stack -/
+example :
+    exFactory.stack = [] ∧ (∀ c ∈ exChain, CallerOutside c) ∧
+    run exFactory exChain =
+      ⟨"ErrA".toList, "base 5".toList, "sites:(*T):Plain".toList, "t-u".toList, exFrames.toList⟩ := by
+  decide
+
 end GErrClone
